@@ -114,6 +114,61 @@ def expr_records(b, header, options, rng, guard=False):
     return recs, meta
 
 
+def ast_part(cap, b, header, source, options, recs, meta, outs, res, count, case):
+    """E-ast: interpret the captured AST of each kernel on the same records with per-dimension bounds checks on every access
+    (tables, temporaries, arguments at contract extents; NULL entity/permutation pointers); compare with the compiled result."""
+    from vf import astkernel as AK
+    from vf import execs as E
+    from vf import harness as H
+
+    scalar = options.get("scalar_type", "float64")
+    cmode = "complex" in scalar
+    by_name = {k["name"]: k for k in cap.kernels}
+    syms = E.object_symbols(header)
+    names = AK.form_integral_names(source)
+    budget = case.get("ast_calls", 6)
+    done = 0
+    for r, m, o in zip(recs, meta, outs):
+        if done >= budget:
+            break
+        oi, itype, sid, k, ents, perms, ext = m
+        if itype == "expression":
+            kn = syms[oi][1]
+        else:
+            lst = names.get(syms[oi][1], [])
+            if k >= len(lst):
+                continue
+            kn = lst[k]
+        kern = by_name.get(kn)
+        if kern is None:
+            count("ast_kernel_not_captured")
+            continue
+        try:
+            A, st = AK.run_kernel_ast(kern["ast"], np.asarray(r["A0"]), np.asarray(r["w"]), np.asarray(r["c"]), np.ravel(np.asarray(r["x"], dtype=float)),
+                                      r.get("ent"), r.get("perm"), cmode, max_steps=case.get("ast_steps", 400000))
+        except AK.Unsupported as e:
+            count("ast_unsupported")
+            res.setdefault("ast_unsup", str(e)[:60])
+            continue
+        except AK.AstError as e:
+            res["violations"].append({"mechanism": "out-of-extent-access", "what": f"{case['recipe']} E-ast: {e} in kernel {kn} ({itype}/{sid}, entities {ents}, perms {perms}) with contract extents {ext}",
+                                      "replay": {"case": case}})
+            continue
+        done += 1
+        count("ast_kernels_interpreted")
+        count("ast_array_accesses_checked", st["accesses"])
+        if o:
+            ref = o[0].astype(complex)
+            scale = max(float(np.max(np.abs(ref))), 1e-300)
+            err = float(np.max(np.abs(A.astype(complex) - ref))) / scale
+            count("ast_vs_compiled_checks")
+            if err > 5e4 * H.EPS[scalar]:
+                res["violations"].append({"mechanism": "interpreted-ast-differs-from-compiled-kernel",
+                                          "what": f"{case['recipe']} kernel {kn}: AST interpreter and compiled C differ by {err:.3e} (formatter or interpreter disagreement)", "replay": {"case": case}})
+            else:
+                count("ast_vs_compiled_ok")
+
+
 def run_case(case):
     from vf import corpus
     from vf import execs as E
@@ -128,10 +183,14 @@ def run_case(case):
     def count(k, n=1):
         cnt[k] = cnt.get(k, 0) + n
 
+    from vf import astkernel as AK
+
     b = corpus.build(recipe)
     objs = b.forms or b.expressions
+    cap = AK.Capture()
     try:
-        header, source = E.generate_source(objs, options)
+        with cap:
+            header, source = E.generate_source(objs, options)
     except Exception as e:
         return {"verdict": INCONCLUSIVE, "why": f"ffcx did not generate code: {type(e).__name__}: {str(e)[:160]}"}
     wd = H.scratch_dir("san")
@@ -173,6 +232,8 @@ def run_case(case):
                 })
                 continue
             count("clean_runs_" + variant)
+            if variant == "asan" and case.get("ast", False):
+                ast_part(cap, b, header, source, options, recs, meta, outs, res, count, case)
             for m in meta:
                 res["nontrivial"].append(case_hash([recipe, variant, m[1], m[2], m[3], m[4], m[5], options]))
             # the kernel must have produced something (not a vacuous run)
@@ -220,6 +281,9 @@ def cases_for(tier, s):
     for i, c in enumerate(R):
         c = {k: v for k, v in c.items() if k in ("recipe", "options")}
         c["seed"] = [s, 800, i]
+        c["ast"] = (i % 3 == 0) if tier == "quick" else True
+        c["ast_calls"] = 3 if tier == "quick" else 12
+        c["ast_steps"] = 120000 if tier == "quick" else 600000
         if tier == "quick":
             c["max_pairs"] = 9
             c["perm_mode"] = "some"
@@ -235,10 +299,12 @@ def main(tier, replay=None):
         "diagonal kernels; each module is generated by the real ffcx code generator, linked with a generic driver, and every kernel is "
         "called for ALL valid entity indices (sampled (f+,f-) pairs beyond the cap) and permutation codes with buffers of exactly the "
         "contract extents (A, w, c, 3 x nodes, doubled for interior facets; NULL entity/permutation for cell kernels, NULL permutation outside "
-        "interior facets) under clang ASan+UBSan and again with each buffer flush against a PROT_NONE guard page and inputs read-only; "
+        "interior facets) under clang ASan+UBSan and again with each buffer flush against a PROT_NONE guard page and inputs read-only; for a third of the "
+        "cases (all in thorough) the captured LNodes AST of the kernel is additionally executed by the bounds-checked interpreter (every ArrayAccess checked per dimension, "
+        "uninitialised reads flagged, NULL pointers = zero-extent arrays) and its result compared with the compiled kernel; "
         "distinct non-trivial = (recipe, variant, kernel, entity, perm) executed to completion with zero reports",
         ["contract extents are computed from the UFL form by the harness (ufcx.h documentation), not from ffcx",
-         "ASan red zones miss non-adjacent overruns: the guard-page build extends reach to one page; beyond that only E-ast (not built yet) would see",
+         "ASan red zones miss non-adjacent overruns: the guard-page build extends reach to one page; the E-ast interpreter checks every access per dimension for the kernels small enough to interpret",
          "clang 14 ASan+UBSan, gcc -O2 for the guard build"],
     )
     cases = cases_for(tier, s)
@@ -250,6 +316,7 @@ def main(tier, replay=None):
     for r in results:
         run.add(r)
     run.require("clean_runs_asan", 30 if not replay else 1)
+    run.require("ast_kernels_interpreted", 20 if not replay else 0)
     run.require("outputs_nonzero", 100 if not replay else 1)
     return run.finish()
 
